@@ -25,16 +25,19 @@ def main():
     pid, wt, k = sys.argv[1], sys.argv[2], sys.argv[3]
     checks = [pid]
     tier = "quick"
+    label = k
     for i, a in enumerate(sys.argv):
         if a == "--checks":
             checks = sys.argv[i + 1].split(",")
         if a == "--tier":
             tier = sys.argv[i + 1]
+        if a == "--as":
+            label = sys.argv[i + 1]
     out = os.path.join(wt, "OUT")
     patch = os.path.join(out, "mutant%s.diff" % k)
     demo = os.path.join(out, "demo%s.rs" % k)
     notes = os.path.join(out, "notes%s.md" % k)
-    meta = {"property": pid, "mutant": k, "ran": []}
+    meta = {"property": pid, "mutant": label, "ran": []}
     sh("git checkout -- . && git clean -fdq -e OUT", cwd=wt)
     os.makedirs(os.path.join(wt, "tests"), exist_ok=True)
     shutil.copy(demo, os.path.join(wt, "tests", "demo.rs"))
@@ -67,11 +70,11 @@ def main():
             viol = [l for l in o.splitlines() if l.startswith("VIOLATION")]
             meta["ran"].append({"cmd": "./check %s --tier %s" % (c, tier), "exit": rc, "violation_lines": len(viol),
                                 "first": (o.splitlines()[-1][:600] if o.strip() else "")})
-            print("%s-%s: check %s -> exit %d (%d VIOLATION lines)" % (pid, k, c, rc, len(viol)))
+            print("%s-%s: check %s -> exit %d (%d VIOLATION lines)" % (pid, label, c, rc, len(viol)))
     finally:
         sh("git -C /repo checkout -- .")
     meta["detected_by"] = [r["cmd"] for r in meta["ran"] if r["exit"] == 1]
-    dest = os.path.join(VERIF, "seeded", "%s-%s" % (pid, k))
+    dest = os.path.join(VERIF, "seeded", "%s-%s" % (pid, label))
     os.makedirs(dest, exist_ok=True)
     shutil.copy(patch, os.path.join(dest, "patch.diff"))
     shutil.copy(demo, os.path.join(dest, "demo.rs"))
